@@ -85,8 +85,14 @@ def check_book(world, i, op, out):
                 if not _close(entries[0][1], dv):
                     world.violation("C07/I1", "two-values-recorded-for-one-function-at-one-point", {"f": n})
                     break
-            if getattr(F, "reuse_gradient", False):
-                pass   # several samples at one point are possible through direct add_point; queries are checked above
+            if getattr(F, "reuse_gradient", False) and F.get_is_leaf():
+                # a function declared differentiable has one gradient per point: whatever route recorded them
+                # (its own oracle, the remainder handed down by a combination), all samples at one point agree
+                for dg, dv in entries[1:]:
+                    if not _close(entries[0][0], dg):
+                        world.violation("C07/I2", "differentiable-function-has-two-gradients-recorded-at-one-point",
+                                        {"f": n})
+                        break
         # I6
         if not F.get_is_leaf():
             terms = [(t, w) for t, w in F.decomposition_dict.items() if w != 0]
